@@ -188,7 +188,19 @@ func GID() string {
 // Park blocks the calling goroutine until the scheduler releases it and returns the index
 // of the option the tape chose. key must identify the parked goroutine deterministically;
 // a duplicate key gets a numeric suffix.
-func (s *Sim) Park(key string, opts []Option) int {
+func (s *Sim) Park(key string, opts []Option) int { return s.park(key, opts, nil) }
+
+// ParkQuiet is Park for a goroutine that nobody released (one that the system under test
+// has just started): in sequential mode its arrival is not the event the scheduler waits for
+// after a release. registered is called once the goroutine is among the parked ones.
+func (s *Sim) ParkQuiet(key string, opts []Option, registered func()) int {
+	if registered == nil {
+		registered = func() {}
+	}
+	return s.park(key, opts, registered)
+}
+
+func (s *Sim) park(key string, opts []Option, quiet func()) int {
 	s.mu.Lock()
 	if s.draining {
 		s.mu.Unlock()
@@ -204,7 +216,9 @@ func (s *Sim) Park(key string, opts []Option) int {
 	e := &entry{key: k, opts: opts, ch: make(chan int, 1)}
 	s.parked[k] = e
 	s.mu.Unlock()
-	if s.seq {
+	if quiet != nil {
+		quiet()
+	} else if s.seq {
 		s.evCh <- struct{}{}
 	}
 	r := <-e.ch
